@@ -7,8 +7,9 @@
 // evaluated on every run and the outcome is compared with the extracted model
 // of Sink/Model.v run on the same layout (write sites recovered from the
 // footer of the reference file and from the Write calls of a reference run).
-// Reader side: every strict prefix of the produced files, and faults injected
-// into the io.ReaderAt at every call index.
+// Reader side: every strict prefix of the produced files under every file
+// option that changes how the file is opened and read (c14OpenVariants), and
+// faults injected into the io.ReaderAt at every call index.
 package main
 
 import (
@@ -789,7 +790,7 @@ func runC14(c *core.Ctx) {
 	env.workdir = filepath.Join(c.OutDir, "pools")
 	_ = os.MkdirAll(env.workdir, 0o755)
 	defer os.RemoveAll(env.workdir)
-	c.Res.Rule = "files of 1-3 row groups (int64, dictionary string, optional plain string, repeated int32 columns; v1/v2 pages, snappy/zstd/gzip/none, bloom filters inline and deferred, page index, plaintext-footer and encrypted-footer encryption, MaxRowsPerRowGroup) written through Write batches / Flush / Close against a destination following a fault script: error at byte offset k or one short count with nil error at k; k = every offset (thorough, small files) or first 16, last 64, +-1 around every module boundary of the footer and a random stride (quick; +-2 and denser strides in thorough); x WriteBufferSize {0, 7, 100, default} x page buffers {default, 64-byte chunks, temp files} x bloom filters {inline, deferred in memory, deferred in files}. A case is one (file, configuration, fault); all are non-trivial (the fault lies inside the file). Plus every prefix length of every file through OpenFile + full read, ReadAt faults at every call index, File.ReadAt against the model, and failing page buffers. Copy path: every unencrypted file is copied with WriteRowGroup (same options, so that every column chunk is streamed from the source) x WriteBufferSize {0, 7, 100, default} x bloom filters {copied inline, deferred in memory, deferred in files}; each copied section (dictionary page, data pages, bloom filter) in turn delivers only {0, 1, n/2, n-1} of its n bytes exactly when it is copied; destination faults at the module boundaries of the copy and a stride. Reader's demand: the (offset, length) of every ReadAt of OpenFile + full read with ReadBufferSize {default, 64, 16} against the model's demand."
+	c.Res.Rule = "files of 1-3 row groups (int64, dictionary string, optional plain string, repeated int32 columns; v1/v2 pages, snappy/zstd/gzip/none, bloom filters inline and deferred, page index, plaintext-footer and encrypted-footer encryption, MaxRowsPerRowGroup) written through Write batches / Flush / Close against a destination following a fault script: error at byte offset k or one short count with nil error at k; k = every offset (thorough, small files) or first 16, last 64, +-1 around every module boundary of the footer and a random stride (quick; +-2 and denser strides in thorough); x WriteBufferSize {0, 7, 100, default} x page buffers {default, 64-byte chunks, temp files} x bloom filters {inline, deferred in memory, deferred in files}. A case is one (file, configuration, fault); all are non-trivial (the fault lies inside the file). Plus every prefix length of every file through OpenFile + full read under the default file options and under 18 option sets (OptimisticRead x ReadBufferSize 1/7/8/9/64/65536/default, ReadBufferSize 16/64, SkipPageIndex, SkipBloomFilters, PrefetchBloomFilters, async read mode, SkipMagicBytes and combinations; error class of the open compared with the model of the open stages under these options), ReadAt faults at every call index, File.ReadAt against the model, and failing page buffers. Copy path: every unencrypted file is copied with WriteRowGroup (same options, so that every column chunk is streamed from the source) x WriteBufferSize {0, 7, 100, default} x bloom filters {copied inline, deferred in memory, deferred in files}; each copied section (dictionary page, data pages, bloom filter) in turn delivers only {0, 1, n/2, n-1} of its n bytes exactly when it is copied; destination faults at the module boundaries of the copy and a stride. Reader's demand: the (offset, length) of every ReadAt of OpenFile + full read with ReadBufferSize {default, 64, 16} against the model's demand."
 
 	if c.HasOracle() {
 		if ans := c.Ask("c14.flags"); !strings.HasSuffix(ans, " 1") || strings.Contains(strings.Split(ans, " ")[0], "0") {
